@@ -69,6 +69,7 @@ func runC02(c *Ctx) {
 	c.Borrow("C15", map[string]string{"C15.latest": "C02.latest"}, "the future-timestamp rejection compares with the target's latest accepted timestamp, which must be the greatest accepted one")
 	gnmiDispatch(c, a, "C02.dispatch")
 	c.Borrow("C09", map[string]string{"C09.prune-guard": "C02.delete-prune", "C09.select": "C02.delete-select", "C09.conditional": "C02.delete-conditional"}, "'a delete at time T removes exactly the matching leaves whose stored timestamp is older than T': the tree must unlink exactly the leaves the timestamp condition accepted - a branch pruned on the verdict of one child takes newer leaves with it")
+	deleteApplied(c, a, "C02.delete-applied")
 	c.Rule("C02.del-honoured", "in ctree.internalDelete the leaf arm calls f and reports deletion only on the true edge of condition(value)")
 
 	nParam := ssa.Value(param(a.gnmiUpdate, 1))
@@ -351,4 +352,68 @@ func deleteCondTable(c *Ctx, a *cacheAnchors, rule string) {
 		}
 		c.Floor(rule, found, 1)
 	}
+}
+
+// deleteApplied: gnmiRemove hands every well-formed delete path to the tree's conditional delete.
+// The delete path may contain wildcards, which only the delete walk itself understands: a path on which
+// the tree was consulted (an exact-path lookup, a query, a size test ...) and the function then returns
+// without the delete walk drops deletes whose path does not name one existing node.
+func deleteApplied(c *Ctx, a *cacheAnchors, rule string) {
+	P := c.P
+	f := a.gnmiRemove
+	c.Rule(rule, "(*Target).gnmiRemove, replayed with an empty and a non-empty joined path: a non-empty path reaches the tree's conditional delete (WalkDeleted / DeleteConditional) with that very path on every path of the function that consults the tree at all - no lookup of the tree (Get, GetLeaf, Query ...: exact-path lookups do not understand wildcards) may decide that the delete is skipped; an empty path touches nothing")
+	c.Analysed(fnName(f))
+	isDelWalk := func(ev *Ev) bool {
+		return ev.Label == "call:(*ctree.Tree).WalkDeleted" || ev.Label == "call:(*ctree.Tree).DeleteConditional" || ev.Label == "call:(*ctree.Tree).Delete"
+	}
+	isTree := func(ev *Ev) bool {
+		return strings.HasPrefix(ev.Label, "call:(*ctree.Tree).") || strings.HasPrefix(ev.Label, "call:(*ctree.Leaf).")
+	}
+	joined := func(e *PPA, st *State, rv RV) bool {
+		r := e.Resolve(st, rv)
+		call, ok := r.V.(*ssa.Call)
+		return ok && staticCallee(&call.Call) == a.join
+	}
+	n := 0
+	for _, plen := range []int64{0, 2} {
+		at := &Atoms{Class: func(e *PPA, st *State, rv RV) string {
+			r := e.Resolve(st, rv)
+			if call, ok := r.V.(*ssa.Call); ok {
+				if la, ok := lenArg(call); ok && joined(e, st, RV{r.F, la}) {
+					return "PLEN"
+				}
+			}
+			return ""
+		}, Int: map[string]int64{"PLEN": plen}}
+		e := &PPA{Cond: at.Cond, Opaque: map[*ssa.Function]bool{a.join: true}, Watch: func(ev *Ev) bool { return isTree(ev) || ev.Label == "call:"+fnName(a.join) }}
+		e.Run(f)
+		c.Paths += len(e.Paths)
+		c.Scen++
+		for i := range e.Paths {
+			p := &e.Paths[i]
+			if p.End != "return" {
+				continue
+			}
+			n++
+			di := p.Index(0, isDelWalk)
+			ti := p.Index(0, isTree)
+			if plen == 0 {
+				c.Check(ti < 0, rule, fnName(f), "empty joined path: the tree is not touched", P.Pos(f.Pos()), "path: "+p.String())
+				continue
+			}
+			if di < 0 {
+				// skipped without looking at the tree (a malformed notification) is not this rule's business
+				c.Check(ti < 0, rule, fnName(f), "a look at the tree never decides that the delete walk is skipped", P.Pos(f.Pos()), "path: "+p.String())
+				continue
+			}
+			// the walk gets the joined path itself
+			okArg := false
+			if len(p.Trace[di].Args) >= 2 {
+				st := newState()
+				okArg = joined(e, st, p.Trace[di].Args[1])
+			}
+			c.Check(okArg, rule, fnName(f), "the delete walk is given the joined prefix+path", P.Pos(f.Pos()), "path: "+p.String())
+		}
+	}
+	c.Floor(rule+"/paths", n, 2)
 }
